@@ -92,6 +92,15 @@ func init() {
 		return runServerProp(env, "C07", o, "Non-trivial: the server sent at least two session envelopes.", func(c *SCase) bool { return sentCount(c) >= 2 })
 	})
 	register("C03", func(env *Env) error {
+		wrapCase = func(t string) string { return "(KScript " + t + ")" }
+		defer func() { wrapCase = nil }()
+		env.Header = hsHeader + "Hs.Builder Corr.Builder Corr.C03."
+		if runBuilderCases(env, true) {
+			return nil
+		}
+		if env.Replay == "" {
+			defer func() { env.Header = hsHeader + "Hs.Builder Corr.Builder Corr.C03."; runBuilderCases(env, false) }()
+		}
 		o := enumOpts{confs: confsByName("plain-only", "none-or-tls", "tls-only", "tls-first", "no-schemes", "gzip-only")[:env.Pick(4, 6)], oracles: serverOracles, alphabet: serverAlphabet, depth: env.Pick(3, 4)}
 		return runServerProp(env, "C03", o, "Non-trivial: the authentication callback was invoked at least once.", func(c *SCase) bool {
 			for _, x := range c.Obs.Calls {
@@ -135,6 +144,15 @@ func init() {
 		return runServerProp(env, "C09", o, "Non-trivial: a negotiation stage took place.", func(c *SCase) bool { return hasState(c, "negotiating") })
 	})
 	register("C10", func(env *Env) error {
+		wrapCase = func(t string) string { return "(KScript " + t + ")" }
+		defer func() { wrapCase = nil }()
+		env.Header = hsHeader + "Hs.Builder Corr.Builder Corr.C10."
+		if runBuilderCases(env, true) {
+			return nil
+		}
+		if env.Replay == "" {
+			defer func() { env.Header = hsHeader + "Hs.Builder Corr.Builder Corr.C10."; runBuilderCases(env, false) }()
+		}
 		o := enumOpts{confs: confsByName("tls-only", "tls-twice", "tls-only-no-config", "tls-only-gzip-only", "tls-first", "tls-handshake-fails"), oracles: serverOracles[:env.Pick(2, 3)], alphabet: serverAlphabet, depth: env.Pick(3, 4)}
 		return runServerProp(env, "C10", o, "Configurations here exclude 'none' (plus two controls that include it). Non-trivial: the server got past the first client envelope.", func(c *SCase) bool { return sentCount(c) >= 1 && len(c.Script) >= 2 })
 	})
